@@ -51,11 +51,15 @@ func ipList(names []string) []net.IP {
 	if len(names) == 0 {
 		return nil
 	}
-	out := make([]net.IP, 0, len(names)+3)
-	for _, n := range names {
-		out = append(out, bytes.Clone(tgtIP[n]))
+	// spare capacity holding sentinel addresses (the caller's own data behind the slice): an append into it overwrites them
+	out := make([]net.IP, len(names)+3)
+	for i := range out {
+		out[i] = net.IP{203, 0, 113, byte(200 + i)}
 	}
-	return out
+	for i, n := range names {
+		out[i] = bytes.Clone(tgtIP[n])
+	}
+	return out[:len(names)]
 }
 
 const sentinel = "SENTINEL"
@@ -104,6 +108,7 @@ func deepCopy(r ech.ResolveResult) ech.ResolveResult {
 		if l == nil {
 			return nil
 		}
+		l = l[:cap(l)] // including the spare capacity
 		out := make([]net.IP, len(l))
 		for i := range l {
 			out[i] = bytes.Clone(l[i])
